@@ -10,9 +10,9 @@ import (
 
 var Discard = rioutil.Discard
 
-func ReadAll(r io.Reader) ([]byte, error)      { return io.ReadAll(r) }
-func NopCloser(r io.Reader) io.ReadCloser       { return io.NopCloser(r) }
-func ReadFile(name string) ([]byte, error)      { return os.ReadFile(name) }
+func ReadAll(r io.Reader) ([]byte, error)  { return io.ReadAll(r) }
+func NopCloser(r io.Reader) io.ReadCloser  { return io.NopCloser(r) }
+func ReadFile(name string) ([]byte, error) { return os.ReadFile(name) }
 func WriteFile(name string, data []byte, perm os.FileMode) error {
 	return os.WriteFile(name, data, perm)
 }
